@@ -70,6 +70,13 @@ func directedHistories() map[string]History {
 		[]BlockSpec{blk(tx(sp(adminID, 0, 9*M, false)))}, []BlockSpec{blk(tx(rm(adminID, 1)))}, empty(3, 1))}
 	out["S1-self-removal"] = History{g3, cat(empty(1, 1), []BlockSpec{blk(tx(rm(1, 1)))}, empty(2, 1), empty(3, 20))}
 	out["S2-remove-then-readmit"] = History{g3, cat(empty(1, 1), []BlockSpec{blk(tx(rm(adminID, 1)))}, empty(2, 1), []BlockSpec{blk(tx(sp(adminID, 1, 7*M, true)))}, empty(2, 1), empty(3, 20))}
+	out["S4-admit-and-remove-one-block"] = History{g3, cat(empty(2, 1), []BlockSpec{blk(tx(createMsg(3, 3)))}, []BlockSpec{blk(tx(sp(adminID, 3, 5*M, true)), tx(rm(adminID, 3)))}, empty(3, 1))}
+	out["S5-admit-setpower-again-one-block"] = History{g3, cat(empty(2, 1), []BlockSpec{blk(tx(createMsg(3, 3)))}, []BlockSpec{blk(tx(sp(adminID, 3, 5*M, true)), tx(sp(adminID, 3, 7*M, true)), tx(sp(adminID, 3, 5*M, true)))}, empty(3, 1))}
+	g4v := defaultGenesis()
+	g4v.Tokens = []int64{10_000_000, 10_000_000, 10_000_000, 10_000_000}
+	out["S6-setpower-in-the-block-of-jailing"] = History{g4v, cat(empty(2, 1),
+		[]BlockSpec{{Dt: 1, Absent: []int{0}}, {Dt: 1, Absent: []int{0}}, {Dt: 1, Absent: []int{0}, Txs: []TxSpec{tx(sp(adminID, 0, 12*M, true))}}, {Dt: 1, Absent: []int{0}, Txs: []TxSpec{tx(sp(adminID, 0, 13*M, true))}},
+			{Dt: 1, Absent: []int{0}, Txs: []TxSpec{tx(sp(adminID, 0, 14*M, true))}}, {Dt: 1, Absent: []int{0}, Txs: []TxSpec{tx(sp(adminID, 0, 15*M, true))}}, {Dt: 1, Absent: []int{0}, Txs: []TxSpec{tx(rm(adminID, 0))}}}, empty(3, 1))}
 	out["S3-non-admin"] = History{g3, cat(empty(1, 1), []BlockSpec{blk(tx(sp(user1ID, 0, 12*M, false)), tx(rm(2, 1)), tx(MsgSpec{Kind: "removepending", Sender: 1, Val: 3}))}, empty(2, 1))}
 	return out
 }
